@@ -17,13 +17,13 @@ class TokEngine(glue.GlueEngine):
         self.min_harness_bound = max(self.tb["FILTERED_STR_LEN"] + 12, self.tb["instr_rows"] + 8)
 
     def unit(self, name, cfile, defs=(), replace=(), unwind=110, unwindset=None, checks="full", timeout=None, replay_fn=None,
-             common=("vf_main.c", "libc_models.c"), ignore_props=(), exclude=None, only=None):
+             common=("vf_main.c", "libc_models.c"), ignore_props=(), exclude=None, only=None, hunt=None):
         defs = list(defs) + ["-DVF_MODEL_STRTOUL"]
         uw = {"strncpy.0": 110}
         uw.update(unwindset or {})
         return self.run(name, cfile, defs=defs, unwind=unwind, unwindset=uw, checks=checks, common=common,
                         replace=list(replace), timeout=timeout, replay_fn=replay_fn, ignore_props=ignore_props,
-                        exclude=exclude, only=only)
+                        exclude=exclude, only=only, hunt=hunt)
 
 
 def api_confirm(eng, lines, tag):
